@@ -138,7 +138,7 @@ ExpEdges(c, d, nr, expl, conj) ==
         oi == IF conj THEN (IF jw THEN <<"JW", HcName(d.opi)>> ELSE <<HcName(d.opi)>>) ELSE oi0
         oj == IF conj THEN <<HcName(d.opj)>> ELSE <<d.opj>>
         str == IF jw THEN <<"JW">> ELSE <<>>
-        lam == <<1, 0, IF d.lamInv = 2 THEN 1 ELSE 2>>
+        lam == <<d.lam[1], IF conj THEN -d.lam[2] ELSE d.lam[2], IF d.lamInv = 2 THEN 1 ELSE 2>>
         amp0 == GScale(Pow(d.lamInv, d.dmax), d.s0)
         amp1 == IF conj THEN GConj(amp0) ELSE amp0
         amp == IF expl /\ ~d.hc THEN <<amp1[1], amp1[2], 1>> ELSE <<amp1[1], amp1[2], 0>>
@@ -242,7 +242,7 @@ MultiPairs(c, ds, n, expl) ==
              IN ConcatG([m \in 1..Len(ms) |-> SetToSeqG(MultiTermEdges(NCell(c), ms[m]))], Len(ms))
         ELSE <<>>)
 
-SupportedIn(c, d) == d.kind = "onsite" \/ d.kind = "coupling" \/ d.kind = "expdecay" \/ OrderedMulti(c, d)
+SupportedIn(c, d) == c.shift = 0 /\ (d.kind = "onsite" \/ d.kind = "coupling" \/ d.kind = "expdecay" \/ OrderedMulti(c, d))
 Supported(d) == SupportedIn(cfg, d)
 RECURSIVE ExpAll(_, _, _, _)
 ExpAll(c, ds, n, expl) ==
